@@ -118,7 +118,7 @@ def run(ctx):
 
     def harness(args, tag, meta, extra=()):
         trace = os.path.join(wd, "trace%s.ndjson" % tag)
-        rc, out = vlib.sh([exe] + args + [trace], env=vlib.SAN_ENV, timeout=1200)
+        rc, out = vlib.sh([exe] + args + [trace], env=vlib.SAN_ENV, timeout=300 if tier == "quick" else 1800)
         if rc != 0:
             mpath = os.path.join(wd, "meta.json")
             json.dump(meta, open(mpath, "w"))
